@@ -59,6 +59,7 @@ func (s *publisherServer) ListTopics(
 	err := s.client.DoTx(ctx, nil, func(tx *ent.Tx) error {
 		predicates := []predicate.Topic{
 			topic.NameHasPrefix(projectTopicPrefix(req.Project)),
+			nameHasExactPrefix(topic.FieldName, projectTopicPrefix(req.Project)),
 			topic.DeletedAtIsNil(),
 		}
 		if req.PageToken != "" {
